@@ -176,34 +176,35 @@ def r17_2(ctx):
     ctx.check("BIT_AND_OP used only as binary and-operator", uses.get("BIT_AND_OP") == {"and_expr BIT_AND_OP equality_expr"}, "and_expr BIT_AND_OP equality_expr", str(sorted(uses.get("BIT_AND_OP", []))), gm.where("and_expr"))
     ctx.check("AND_OP used only as logical and-operator", uses.get("AND_OP") == {"logical_and_expr AND_OP inclusive_or_expr"}, "logical_and_expr AND_OP inclusive_or_expr", str(sorted(uses.get("AND_OP", []))), gm.where("logical_and_expr"))
     ctx.check("UNARY_OP used only as prefix of a cast expression", uses.get("UNARY_OP") == {"UNARY_OP cast_expr"}, "UNARY_OP cast_expr", str(sorted(uses.get("UNARY_OP", []))), gm.where("unary_expr"))
-    # UNARY_OP = PTR | * | + | - | ~ | !   with PTR = [^&]&[^&]
-    import re._parser as sp
-
+    # UNARY_OP = & | * | + | - | ~ | ! : one character each; the address-of `&` only where it is not part of `&&`, and WITHOUT the
+    # characters next to it (a terminal `[^&]&[^&]` swallows its neighbours: `a&~b` lexes as the "operator" `a&~` applied to b,
+    # `1&ctpop64(x)` calls tpop64)
     t = gm.terminals.get("UNARY_OP")
-    ctx.need(t is not None, "terminal UNARY_OP missing")
-    tree = list(sp.parse(t["value"]))
-    if len(tree) == 1 and tree[0][0] is sp.SUBPATTERN:
-        tree = list(tree[0][1][3])
-    branches = tree[0][1][1] if len(tree) == 1 and tree[0][0] is sp.BRANCH else [tree]
-    singles = set()
-    ptr_ok = False
-    other = []
-    for br in branches:
-        br = list(br)
-        if len(br) == 1 and br[0][0] is sp.SUBPATTERN:
-            br = list(br[0][1][3])
-        if len(br) == 1 and br[0][0] is sp.LITERAL:
-            singles.add(chr(br[0][1]))
-        elif len(br) == 3 and br[1] == (sp.LITERAL, ord("&")):
-            def not_amp(x):
-                return x[0] is sp.IN and list(x[1]) == [(sp.NEGATE, None), (sp.LITERAL, ord("&"))] or x == (sp.NOT_LITERAL, ord("&"))
-            ptr_ok = not_amp(br[0]) and not_amp(br[2])
-            if not ptr_ok:
-                other.append(str(br))
-        else:
-            other.append(str(br))
-    ctx.check("UNARY_OP single-character operators", singles == {"*", "+", "-", "~", "!"}, "* + - ~ !", str(sorted(singles)) + (" extra: " + "; ".join(other) if other else ""), gm.where("UNARY_OP"))
-    ctx.check("address-of pattern needs a non-& on both sides", ptr_ok, "[^&]&[^&]", "ok" if ptr_ok else "pattern changed: " + "; ".join(other), gm.where("PTR"))
+    ctx.need(t is not None and t["kind"] == "re", "terminal UNARY_OP missing")
+    try:
+        ux = re.compile(t["value"])
+    except re.error as e:
+        ctx.need(False, f"UNARY_OP pattern does not compile: {e}")
+    singles = {c for c in "*+-~!&@#%^|/<>=?:.,;()[]{}" if ux.fullmatch(c)}
+    ctx.check("UNARY_OP single-character operators", singles == {"*", "+", "-", "~", "!", "&"}, "& * + - ~ !", str(sorted(singles)), gm.where("UNARY_OP"))
+    probes = ["a&b", "a&~b", "a & b", "(a)&b", "1&ctpop64(x)", "a&&b", "a && b", "x = &y;", "a&-b", "f(&a, &b)", "a&(b)", "a &b", "a& b"]
+    bad = []
+    n_amp = 0
+    for text in probes:
+        for pos in range(len(text)):
+            m = ux.match(text, pos)
+            if not m:
+                if text[pos] == "&" and "&&" not in text[max(0, pos - 1):pos + 2]:
+                    bad.append(f"{text!r}: the lone & at {pos} is not matched")
+                continue
+            if m.end() - m.start() != 1:
+                bad.append(f"{text!r}: matches {m.group(0)!r} at {pos}")
+            elif m.group(0) == "&":
+                n_amp += 1
+                if "&&" in text[max(0, pos - 1):pos + 2]:
+                    bad.append(f"{text!r}: matches one half of && at {pos}")
+    ctx.check("address-of `&` is one character, and never one half of `&&`", not bad and n_amp >= 10, "every UNARY_OP match is one character long; a lone & matches, an & next to another & does not",
+              "; ".join(bad[:4]) or f"{n_amp} lone ampersands matched", gm.where("PTR") if "PTR" in gm.text else gm.where("UNARY_OP"))
 
 
 @rule("R17.3", "C17", "alternative orders and terminal priorities the ambiguity resolution relies on", min_instances=20)
